@@ -1,6 +1,8 @@
 import PercevalModel.Proto
 import PercevalModel.Model.C14
 import PercevalModel.Model.C14Life
+import PercevalModel.Model.C14Sym
+import Std.Data.HashMap
 
 /-!
   C14 driver.  One JSON request per line:
@@ -25,6 +27,25 @@ import PercevalModel.Model.C14Life
       -> {"cur":R,"fix":R}  (pinned / repaired `_set_parameter`), R = {"out":[null|class|copy report per op],
          "snaps":[after every op {"params":{name:[lo,hi,periodic,variable,value]},
                                    "comps":{cid:{"vars":[..],"defined":b,"getvars":[null|"name"|q per slot]}}}]}
+  {"op":"pbs"} -> {"U":rows,"unitary":b}
+  {"op":"xsess", ...}   Expression objects and the symbolic branch (`Model/C14Expr.lean`, `Model/C14Sym.lean`):
+      "pi":q, "table":[[fn,arg,res|null]]      the values of math.sin/cos/exp/sqrt/acos the harness supplies (null:
+                                               not a real number); anything the model needs and does not find is
+                                               listed in the reply ("missing") and asked again
+      "ops":[ {"k":"new"|"set"|"fix"|"reset"|"per", …}          raw parameters, as in "life"
+              {"k":"bind","x":name,"lo":q,"hi":q}                 `_set_parameter` of one slot on a raw parameter
+              {"k":"assign","keys":[…],"kv":[[name,q]]}
+              {"k":"xnew","id":s,"e":ast}                         Expression(...) / an overloaded operator
+              {"k":"xset","id":s,"v":q,"force":b} {"k":"xfix","id":s,"v":q} {"k":"xreset","id":s}
+              {"k":"xper","id":s,"b":b} {"k":"xbind","id":s,"lo":q,"hi":q} ]
+      ast = {"v":name} | {"c":q} | {"pi":1} | {"op":"add|sub|mul|div","a":ast,"b":ast} | {"op":"neg","a":ast}
+            | {"op":"pow","a":ast,"n":int} | {"op":"fn","f":"sin|cos|exp|sqrt|acos","a":ast}
+      "comps":[{"c":cid,"kind":"BS|PS|WP|HWP|QWP|PR","conv":…,"from":i,"slots":[{"par":key}|{"ex":id}|{"lit":ast}]}]
+      "symat":[step indices], "points":[{name:q}]   (symbolic matrices at the current values / at the points, last step)
+      -> {"out":[null|class per op], "missing":[[fn,arg]],
+          "steps":[{"params":{name:par5},"objs":{id:[lo,hi,_periodic,symbol,value,defined]},
+                    "comps":{cid:{"reads":[q|{"e":class} per slot],"sym":rows|absent}}}],
+          "final":{cid:{"free":[names],"pts":[rows per point]}}}      (an entry that is not a number is null)
 -/
 
 open Lean PM PM.Proto PM.C14
@@ -205,6 +226,224 @@ def lifeRun (sound : Bool) (ops : Array Json) : Except String Json := do
     snaps := snaps.push (lifeSnap s)
   return Json.mkObj [("out", Json.arr outs), ("snaps", Json.arr snaps)]
 
+/-! ### sessions with Expression objects; the symbolic branch -/
+
+def fnOf (s : String) : Except String Fn1 :=
+  match s with
+  | "sin" => .ok .sin
+  | "cos" => .ok .cos
+  | "exp" => .ok .exp
+  | "sqrt" => .ok .sqrt
+  | "acos" => .ok .acos
+  | _ => .error s!"unknown function {s}"
+
+def PM.C14.Fn1.str : Fn1 → String
+  | .sin => "sin" | .cos => "cos" | .exp => "exp" | .sqrt => "sqrt" | .acos => "acos"
+
+partial def xexprOf (j : Json) : Except String XExpr := do
+  if let .ok (.str x) := j.getObjVal? "v" then return .var x
+  if let .ok c := j.getObjVal? "c" then return .const (← ratOfJson c)
+  if let .ok _ := j.getObjVal? "pi" then return .pi
+  let op ← strOf j "op"
+  let a ← xexprOf (← j.getObjVal? "a")
+  match op with
+  | "neg" => return .neg a
+  | "pow" => return .powi a (← intOf j "n")
+  | "fn" => return .app (← fnOf (← strOf j "f")) a
+  | _ =>
+    let b ← xexprOf (← j.getObjVal? "b")
+    match op with
+    | "add" => return .add a b
+    | "sub" => return .sub a b
+    | "mul" => return .mul a b
+    | "div" => return .div a b
+    | _ => throw s!"bad op {op}"
+
+/-- the function table supplied by the harness: key `fn:arg` -/
+abbrev FTable := Std.HashMap String (Option ℚ)
+
+def fkey (f : Fn1) (x : ℚ) : String := f.str ++ ":" ++ (if x.den = 1 then s!"{x.num}" else s!"{x.num}/{x.den}")
+
+def tableInterp (pi : ℚ) (t : FTable) : Interp ℚ :=
+  { pi := pi, fn := fun f x => match t.get? (fkey f x) with
+      | some r => r
+      | none => none }
+
+def tableOf (j : Json) : Except String FTable := do
+  let mut t : FTable := {}
+  for e in ← arrOf j "table" do
+    match e with
+    | .arr #[.str f, a, r] =>
+      let f ← fnOf f
+      let a ← ratOfJson a
+      let r ← match r with
+        | .null => pure none
+        | v => do pure (some (← ratOfJson v))
+      t := t.insert (fkey f a) r
+    | _ => throw "bad table entry"
+  return t
+
+/-- function applications whose argument evaluates but whose value the table does not hold -/
+def xneeds (I : Interp ℚ) (t : FTable) (env : String → Option ℚ) : XExpr → List (Fn1 × ℚ)
+  | .var _ | .const _ | .pi => []
+  | .add a b | .sub a b | .mul a b | .div a b => xneeds I t env a ++ xneeds I t env b
+  | .powi a _ | .neg a => xneeds I t env a
+  | .app f a => xneeds I t env a ++
+      (match a.eval I env with
+        | some x => if t.contains (fkey f x) then [] else [(f, x)]
+        | none => [])
+
+def cneeds (I : Interp ℚ) (t : FTable) (env : String → Option ℚ) : CExpr → List (Fn1 × ℚ)
+  | .re a => xneeds I t env a
+  | .I => []
+  | .expI a => xneeds I t env a ++
+      (match a.eval I env with
+        | some x => (if t.contains (fkey .cos x) then [] else [(Fn1.cos, x)]) ++
+                    (if t.contains (fkey .sin x) then [] else [(Fn1.sin, x)])
+        | none => [])
+  | .add a b | .sub a b | .mul a b => cneeds I t env a ++ cneeds I t env b
+  | .neg a => cneeds I t env a
+
+def rowsC {n : ℕ} (M : Matrix (Fin n) (Fin n) CExpr) : Array (Array CExpr) :=
+  Array.ofFn fun i : Fin n => Array.ofFn fun j : Fin n => M i j
+
+/-- the symbolic matrix of a leaf from the `spv` of its slots (constructor order) -/
+def symRows (kind : String) (conv : String) (sp : List XExpr) : Except String (Array (Array CExpr)) :=
+  match kind, sp with
+  | "BS", [θ, tl, bl, tr, br] => do return rowsC (symBS (← convOf conv) θ tl bl tr br)
+  | "PS", [φ] => return rowsC (symPS φ)
+  | "WP", [d, x] => return rowsC (symWP d x)
+  | "HWP", [x] => return rowsC (symHWP x)
+  | "QWP", [x] => return rowsC (symQWP x)
+  | "PR", [d] => return rowsC (symPR d)
+  | _, _ => throw s!"bad component {kind}/{sp.length}"
+
+structure XComp where
+  cid : String
+  kind : String
+  conv : String
+  frm : ℕ
+  slots : List SlotRef
+
+def slotRefOf (j : Json) : Except String SlotRef := do
+  if let .ok (.str k) := j.getObjVal? "par" then return .par k
+  if let .ok (.str k) := j.getObjVal? "ex" then return .ex k
+  if let .ok a := j.getObjVal? "lit" then return .lit (← xexprOf a)
+  throw "bad slot reference"
+
+def xopOf (j : Json) : Except String XOp := do
+  let k ← strOf j "k"
+  let rat (key : String) : Except String ℚ := do ratOfJson (← j.getObjVal? key)
+  match k with
+  | "new" => return .base (.new (← strOf j "x") (← optRatOf j "val") (← optRatOf j "lo") (← optRatOf j "hi") (← boolOf j "periodic"))
+  | "set" => return .base (.par (← strOf j "x") (.set (← rat "v") (← boolOf j "force")))
+  | "fix" => return .base (.par (← strOf j "x") (.fix (← rat "v")))
+  | "reset" => return .base (.par (← strOf j "x") .reset)
+  | "per" => return .base (.par (← strOf j "x") (.setPeriodic (← boolOf j "b")))
+  | "bind" => return .base (.par (← strOf j "x") (.bind (some (← rat "lo")) (some (← rat "hi")) (some true)))
+  | "assign" =>
+    let keys ← (← arrOf j "keys").toList.mapM fun e => e.getStr?
+    let kv ← (← arrOf j "kv").toList.mapM fun e => do
+      match e with
+      | .arr #[.str x, v] => return (x, ← ratOfJson v)
+      | _ => throw "bad assign entry"
+    return .base (.assign keys kv)
+  | "xnew" => return .xnew (← strOf j "id") (← xexprOf (← j.getObjVal? "e"))
+  | "xset" => return .xpar (← strOf j "id") (.set (← rat "v") (← boolOf j "force"))
+  | "xfix" => return .xpar (← strOf j "id") (.fix (← rat "v"))
+  | "xreset" => return .xpar (← strOf j "id") .reset
+  | "xper" => return .xpar (← strOf j "id") (.setPeriodic (← boolOf j "b"))
+  | "xbind" => return .xpar (← strOf j "id") (.bind (some (← rat "lo")) (some (← rat "hi")) (some true))
+  | _ => throw s!"bad session op {k}"
+
+def floatToJson : Exc ⊕ ℚ → Json
+  | .inr v => ratToJson v
+  | .inl e => Json.mkObj [("e", .str e.name)]
+
+def centryToJson : Option GQ → Json
+  | some z => gqToJson z
+  | none => .null
+
+def evalRows (I : Interp ℚ) (env : String → Option ℚ) (rows : Array (Array CExpr)) : Json :=
+  .arr (rows.map fun r => .arr (r.map fun e => centryToJson (e.eval I GQ.ofRat GQ.I env)))
+
+def needRows (I : Interp ℚ) (t : FTable) (env : String → Option ℚ) (rows : Array (Array CExpr)) : List (Fn1 × ℚ) :=
+  rows.toList.flatMap fun r => r.toList.flatMap fun e => cneeds I t env e
+
+def xsess (j : Json) : Except String Json := do
+  let pi ← ratOfJson (← j.getObjVal? "pi")
+  let t ← tableOf j
+  let I := tableInterp pi t
+  let ops ← (← arrOf j "ops").mapM xopOf
+  let comps ← (← arrOf j "comps").toList.mapM fun c => do
+    let slots ← (← arrOf c "slots").toList.mapM slotRefOf
+    pure (⟨← strOf c "c", ← strOf c "kind", (c.getObjValAs? String "conv").toOption.getD "", ← natOf c "from", slots⟩ : XComp)
+  let symat ← (← arrOf j "symat").toList.mapM fun e => e.getNat?
+  let points ← (← arrOf j "points").toList.mapM fun pt => do
+    match pt with
+    | .obj kvs => kvs.toList.mapM fun (k, v) => do pure (k, ← ratOfJson v)
+    | _ => throw "bad point"
+  let mut s : XSt := (fun _ => none, fun _ => none)
+  let mut names : Array String := #[]
+  let mut ids : Array String := #[]
+  let mut outs : Array Json := #[]
+  let mut steps : Array Json := #[]
+  let mut missing : List (Fn1 × ℚ) := []
+  let mut i := 0
+  for op in ops do
+    let (s', o) := xstep true s op
+    s := s'
+    outs := outs.push (excToJson o)
+    match op with
+    | .base (.new x ..) => if !names.contains x then names := names.push x
+    | .xnew id _ => if !ids.contains id then ids := ids.push id
+    | _ => pure ()
+    let env := LStore.env s.1
+    let ps := names.toList.filterMap fun n => (s.1 n).map fun p => (n, parToJson p)
+    let os := ids.toList.filterMap fun id => (s.2 id).map fun o =>
+      (id, Json.arr #[optRatToJson o.par.lo, optRatToJson o.par.hi, toJson o.par.periodic, toJson o.par.sym,
+        optRatToJson o.par.val, toJson (o.defined s.1)])
+    let mut cs : List (String × Json) := []
+    for c in comps do
+      if c.frm ≤ i then
+        let reads := c.slots.map fun r => floatToJson (slotFloat I s r)
+        for r in c.slots do
+          match r with
+          | .ex id => match s.2 id with
+            | some o => missing := missing ++ xneeds I t env o.e
+            | none => pure ()
+          | .lit e => missing := missing ++ xneeds I t env e
+          | _ => pure ()
+        let mut fields : List (String × Json) := [("reads", Json.arr reads.toArray)]
+        if symat.contains i then
+          match c.slots.mapM (slotSpv s) with
+          | some sp =>
+            let rows ← symRows c.kind c.conv sp
+            missing := missing ++ needRows I t env rows
+            fields := fields ++ [("sym", evalRows I env rows)]
+          | none => pure ()
+        cs := cs ++ [(c.cid, Json.mkObj fields)]
+    steps := steps.push (Json.mkObj [("params", Json.mkObj ps), ("objs", Json.mkObj os), ("comps", Json.mkObj cs)])
+    i := i + 1
+  -- last state: free symbols and the symbolic matrices at the points
+  let mut fin : List (String × Json) := []
+  for c in comps do
+    if c.frm < i then
+      match c.slots.mapM (slotSpv s) with
+      | some sp =>
+        let rows ← symRows c.kind c.conv sp
+        let free := (sp.flatMap XExpr.vars).eraseDups
+        let mut pts : Array Json := #[]
+        for pt in points do
+          let env : String → Option ℚ := fun x => (pt.find? (·.1 == x)).map (·.2)
+          missing := missing ++ needRows I t env rows
+          pts := pts.push (evalRows I env rows)
+        fin := fin ++ [(c.cid, Json.mkObj [("free", toJson free), ("pts", Json.arr pts)])]
+      | none => pure ()
+  let miss := missing.eraseDups.map fun (f, x) => Json.arr #[.str f.str, ratToJson x]
+  return Json.mkObj [("out", Json.arr outs), ("steps", Json.arr steps), ("final", Json.mkObj fin),
+    ("missing", Json.arr miss.toArray)]
+
 def handleReq (j : Json) : Except String Json := do
   let op ← strOf j "op"
   match op with
@@ -268,6 +507,10 @@ def handleReq (j : Json) : Except String Json := do
   | "life" =>
     let ops ← arrOf j "ops"
     return Json.mkObj [("cur", ← lifeRun false ops), ("fix", ← lifeRun true ops)]
+  | "pbs" =>
+    let M : Matrix (Fin 4) (Fin 4) GQ := pbs
+    return Json.mkObj [("U", rowsOf M), ("unitary", toJson (unitaryB M))]
+  | "xsess" => xsess j
   | _ => throw s!"unknown op {op}"
 
 def handle (j : Json) : Json :=
